@@ -183,7 +183,7 @@ def check_case(ctx, r, variant=None):
 
 
 def _check_case(ctx, r, variant):
-    tag = gen.build(r)
+    tag = gen.build_root(r)
     if variant is None:
         out, eol, how = render_variants(ctx.rng, tag)
     else:
@@ -360,7 +360,7 @@ def _run(ctx):
     sampled = False
     for _ in range(ctx.budget(4000, 320000)):
         depth = rng.choice([1, 2, 3, 4, 5, 6]) if not ctx.thorough else rng.choice([1, 2, 3, 4, 5, 6, 8, 10])
-        r = gen.rand_tree(rng, depth=depth, max_children=rng.choice([2, 3, 5, 8]))
+        r = gen.rand_tree(rng, depth=depth, max_children=rng.choice([2, 3, 5, 8]), kinds={"tag": 5, "text": 4, "num": 1, "list": 1})
         check_case(ctx, r)
         ctx.case(r, nontrivial=nontrivial(r))
         if rng.random() < 0.25:
